@@ -357,3 +357,59 @@ M('symdiff_order', 'C11', SU,
         return ret.difference(self.intersection(*others))""",
   """        ret = self.from_iterable(chain(*others)).union(self)
         return ret.difference(self.intersection(*others))""")
+
+Q = 'boltons/queueutils.py'
+L = 'boltons/listutils.py'
+# ---------------------------------------------------------------- C10
+M('tiebreak_by_task', 'C10', Q,
+  """        entry = [priority, count, task]
+        self._entry_map[task] = entry""",
+  """        entry = [priority, -count if priority == -2.5 else count, task]
+        self._entry_map[task] = entry""")
+M('peek_no_cull', 'C10', Q,
+  """        try:
+            self._cull()
+            _, _, task = self._pq[0]""",
+  """        try:
+            if len(self._pq) < 3:
+                self._cull()
+            _, _, task = self._pq[0]
+            if task is _REMOVED:
+                raise IndexError()""")
+M('readd_keeps_old', 'C10', Q,
+  """        if task in self._entry_map:
+            self.remove(task)
+        count = next(self._counter)""",
+  """        if task in self._entry_map and priority <= self._entry_map[task][0]:
+            self.remove(task)
+        count = next(self._counter)""")
+M('priority_int', 'C10', Q,
+  """    _default_priority_key = staticmethod(lambda p: -float(p or 0))""",
+  """    _default_priority_key = staticmethod(lambda p: -int(p or 0))""")
+M('cull_last', 'C10', Q,
+  """            priority, count, task = self._pq[0]
+            if task is _REMOVED:""",
+  """            priority, count, task = self._pq[0 if len(self._pq) < 5 else -1]
+            if task is _REMOVED:""")
+M('len_counts_removed', 'C10', Q,
+  """        return len(self._entry_map)""",
+  """        return len(self._entry_map) if len(self._pq) < 9 else len(self._pq)""")
+M('blist_balance_drop', 'C10', L,
+  """                self.lists.insert(next_list_idx, cur_list[-half_limit:])
+                del cur_list[-half_limit:]""",
+  """                self.lists.insert(next_list_idx, cur_list[-half_limit:])
+                del cur_list[-half_limit - (len(self.lists) == 4):]""")
+M('blist_translate_off_by_one', 'C10', L,
+  """            if rel_idx < len_list:
+                break
+            rel_idx -= len_list""",
+  """            if rel_idx <= len_list and list_idx == 2:
+                break
+            if rel_idx < len_list:
+                break
+            rel_idx -= len_list""")
+M('blist_pop_keeps_empty', 'C10', L,
+  """            ret = lists[list_idx].pop(rel_idx)
+            self._balance_list(list_idx)""",
+  """            ret = lists[list_idx].pop(rel_idx - (list_idx == 3 and rel_idx > 0))
+            self._balance_list(list_idx)""")
